@@ -5,8 +5,9 @@
 
    Protocol of one call (engineState.FindType) for the name k, made for a package whose dependencies answer d
    (d = None: the name's package is not among them; d = Some r: findDependency found it and the lookup in it gives r):
+     if d = Some r: return r                      (an answer for this package only: NOT cached engine-wide, and it
+                                                   takes precedence over whatever the cache holds for the name);
      RLock; x := cache[k]; RUnlock; if x is a hit return it;
-     if d = Some r: return r                      (an answer for this package only: NOT cached engine-wide);
      Lock; v, err := importer(k)                  (a deterministic oracle of the name alone, a Section variable);
      on error: Unlock, return the error (nothing stored);  otherwise cache[k] := v; Unlock; return v.
    Two calls that miss concurrently both import; by determinism of the oracle the second store is harmless.
@@ -42,10 +43,10 @@ Section FindType.
 
   (* ------------------------------------------------------------ sequential execution (executable) *)
   Definition find_seq (c : cache) (k : key) (d : depans) : option val * cache :=
-    match lookup k c with
-    | Some v => (Some v, c)
-    | None => match d with
-              | Some r => (r, c)
+    match d with
+    | Some r => (r, c)
+    | None => match lookup k c with
+              | Some v => (Some v, c)
               | None => match oracle k with
                         | Some v => (Some v, store k v c)
                         | None => (None, c)
@@ -66,14 +67,7 @@ Section FindType.
 
   (* what a call returns, as a function of the initial cache and its own inputs alone: the lone call *)
   Definition spec (c0 : cache) (k : key) (d : depans) : option val :=
-    match lookup k c0 with
-    | Some v => Some v
-    | None => match d with Some r => r | None => oracle k end
-    end.
-
-  (* the dependencies and the importer agree where both resolve a name (same source, same type) *)
-  Definition consistent (k : key) (d : depans) : Prop :=
-    forall r v, d = Some r -> oracle k = Some v -> r = Some v.
+    match d with Some r => r | None => cspec c0 k end.
 
   (* cache c is a correct extension of c0 *)
   Definition good (c0 c : cache) : Prop :=
@@ -97,41 +91,32 @@ Section FindType.
   Lemma good_miss c0 c k : good c0 c -> lookup k c = None -> lookup k c0 = None.
   Proof. intros G L. destruct (lookup k c0) eqn:E; [|reflexivity]. apply (proj1 G) in E. congruence. Qed.
 
-  (* a hit in a good cache is what the lone call returns *)
-  Lemma good_hit c0 c k d v : good c0 c -> consistent k d -> lookup k c = Some v -> spec c0 k d = Some v.
-  Proof.
-    intros G Co L. apply (proj2 G) in L. unfold cspec in L. unfold spec.
-    destruct (lookup k c0); [assumption|]. destruct d as [r|]; [|assumption].
-    apply (Co r v); [reflexivity | assumption].
-  Qed.
-
-  Lemma find_seq_spec c0 c k d : good c0 c -> consistent k d ->
+  Lemma find_seq_spec c0 c k d : good c0 c ->
     fst (find_seq c k d) = spec c0 k d /\ good c0 (snd (find_seq c k d)).
   Proof.
-    intros G Co. unfold find_seq. destruct (lookup k c) as [v|] eqn:L; cbn.
-    - split; [symmetry; eapply good_hit; eassumption | assumption].
-    - pose proof (good_miss _ _ _ G L) as L0.
-      assert (S : spec c0 k d = match d with Some r => r | None => oracle k end) by (unfold spec; rewrite L0; reflexivity).
-      destruct d as [r|]; cbn; [split; auto|].
+    intros G. unfold find_seq, spec. destruct d as [r|]; cbn; [split; auto|].
+    destruct (lookup k c) as [v|] eqn:L; cbn.
+    - split; [symmetry; apply (proj2 G); assumption | assumption].
+    - pose proof (good_miss _ _ _ G L) as L0. unfold cspec. rewrite L0.
       destruct (oracle k) as [v|] eqn:O; cbn; split; auto.
       apply good_store; [assumption|]. unfold cspec. rewrite L0. assumption.
   Qed.
 
-  Lemma run_seq_spec c0 ks : (forall k d, In (k, d) ks -> consistent k d) -> forall c, good c0 c ->
+  Lemma run_seq_spec c0 ks : forall c, good c0 c ->
     fst (run_seq c ks) = map (fun x => spec c0 (fst x) (snd x)) ks /\ good c0 (snd (run_seq c ks)).
   Proof.
-    induction ks as [|[k d] r IH]; intros Co c G; cbn; [auto|].
+    induction ks as [|[k d] r IH]; intros c G; cbn; [auto|].
     destruct (find_seq c k d) as [res c1] eqn:F.
-    destruct (find_seq_spec c0 c k d G) as [F1 F2]; [apply Co; left; reflexivity|]. rewrite F in F1, F2. cbn in F1, F2.
+    destruct (find_seq_spec c0 c k d G) as [F1 F2]. rewrite F in F1, F2. cbn in F1, F2.
     destruct (run_seq c1 r) as [rs c2] eqn:R.
-    destruct (IH (fun k' d' H => Co k' d' (or_intror H)) c1 F2) as [I1 I2]. rewrite R in I1, I2. cbn in I1, I2.
+    destruct (IH c1 F2) as [I1 I2]. rewrite R in I1, I2. cbn in I1, I2.
     cbn. split; [congruence | assumption].
   Qed.
 
   (* history independence: in a sequential execution, in any order, every call returns what it returns alone *)
-  Corollary run_seq_results c0 ks : (forall k d, In (k, d) ks -> consistent k d) ->
+  Corollary run_seq_results c0 ks :
     fst (run_seq c0 ks) = map (fun x => spec c0 (fst x) (snd x)) ks.
-  Proof. intros Co. apply run_seq_spec; [assumption | apply good_refl]. Qed.
+  Proof. apply run_seq_spec. apply good_refl. Qed.
 
   (* ------------------------------------------------------------ concurrent execution *)
   Inductive pc :=
@@ -149,11 +134,11 @@ Section FindType.
   Record cstate := CS { calls : list call; ccache : cache; creaders : nat; cwriter : bool }.
 
   Inductive cstep : call -> cache -> nat -> bool -> call -> cache -> nat -> bool -> Prop :=
-  | cs_rlock k d c n : cstep (C k d Start) c n false (C k d HoldR) c (S n) false
+  | cs_dep k r c n w : cstep (C k (Some r) Start) c n w (C k (Some r) (Done r)) c n w
+  | cs_rlock k c n : cstep (C k None Start) c n false (C k None HoldR) c (S n) false
   | cs_lookup k d c n w : cstep (C k d HoldR) c n w (C k d (GotR (lookup k c))) c n w
   | cs_hit k d v c n w : cstep (C k d (GotR (Some v))) c n w (C k d (Done (Some v))) c (pred n) w
   | cs_miss k d c n w : cstep (C k d (GotR None)) c n w (C k d Missed) c (pred n) w
-  | cs_dep k r c n w : cstep (C k (Some r) Missed) c n w (C k (Some r) (Done r)) c n w
   | cs_lock k c : cstep (C k None Missed) c 0 false (C k None HoldW) c 0 true
   | cs_compute k d c n w : cstep (C k d HoldW) c n w (C k d (Computed (oracle k))) c n w
   | cs_fail k d c n w : cstep (C k d (Computed None)) c n w (C k d (Done None)) c n false
@@ -174,11 +159,11 @@ Section FindType.
 
   (* per-call invariant *)
   Definition call_ok (c0 : cache) (x : call) : Prop :=
-    consistent (ckey x) (cdep x) /\
     match cpc x with
-    | Start | HoldR => True
-    | GotR (Some v) => spec c0 (ckey x) (cdep x) = Some v
-    | GotR None | Missed => lookup (ckey x) c0 = None
+    | Start => True
+    | HoldR => cdep x = None
+    | GotR (Some v) => cdep x = None /\ cspec c0 (ckey x) = Some v
+    | GotR None | Missed => cdep x = None /\ lookup (ckey x) c0 = None
     | HoldW => lookup (ckey x) c0 = None /\ cdep x = None
     | Computed r => lookup (ckey x) c0 = None /\ cdep x = None /\ r = oracle (ckey x)
     | Stored v => lookup (ckey x) c0 = None /\ cdep x = None /\ oracle (ckey x) = Some v
@@ -188,10 +173,10 @@ Section FindType.
   Definition cinv (c0 : cache) (s : cstate) : Prop :=
     good c0 (ccache s) /\ Forall (call_ok c0) (calls s).
 
-  Lemma cinv_init c0 ks : (forall k d, In (k, d) ks -> consistent k d) -> cinv c0 (cinit c0 ks).
+  Lemma cinv_init c0 ks : cinv c0 (cinit c0 ks).
   Proof.
-    intros Co. split; [apply good_refl|]. cbn. apply Forall_forall. intros x H. apply in_map_iff in H.
-    destruct H as [[k d] [<- Hin]]. split; [apply Co; assumption | exact I].
+    split; [apply good_refl|]. cbn. apply Forall_forall. intros x H. apply in_map_iff in H.
+    destruct H as [[k d] [<- Hin]]. exact I.
   Qed.
 
   Lemma cinv_step c0 s s' : cinv c0 s -> sstep s s' -> cinv c0 s'.
@@ -200,25 +185,24 @@ Section FindType.
     apply Forall_app in F. destruct F as [F1 F2]. inversion F2 as [|? ? Hx F3]; subst.
     assert (Re : forall c'', good c0 c'' -> call_ok c0 x' -> cinv c0 (CS (l1 ++ x' :: l2) c'' n' w')).
     { intros c'' G' H. split; [assumption|]. cbn. apply Forall_app. split; [assumption | constructor; assumption]. }
-    destruct Hx as [Co Hx].
     inversion CSt; subst; unfold call_ok in *; cbn [cpc ckey cdep] in *.
-    - apply Re; auto.
-    - apply Re; auto. split; [assumption|]. destruct (lookup k c') as [v|] eqn:L.
-      + eapply good_hit; eassumption.
-      + eapply good_miss; eassumption.
-    - apply Re; auto.
-    - apply Re; auto.
-    - apply Re; auto. split; [assumption|]. unfold spec. rewrite Hx. reflexivity.
-    - apply Re; auto.
-    - apply Re; auto. tauto.
-    - apply Re; auto. split; [assumption|]. destruct Hx as (L & D & E). unfold spec. rewrite L, D. assumption.
-    - destruct Hx as (L & D & E). apply Re; [|split; auto].
+    - (* dep *) apply Re; auto.
+    - (* rlock *) apply Re; auto.
+    - (* lookup *) apply Re; auto. destruct (lookup k c') as [v|] eqn:L.
+      + split; [assumption|]. apply (proj2 G). assumption.
+      + split; [assumption|]. eapply good_miss; eassumption.
+    - (* hit *) apply Re; auto. destruct Hx as [D S]. unfold spec. rewrite D. auto.
+    - (* miss *) apply Re; auto.
+    - (* lock *) apply Re; auto. tauto.
+    - (* compute *) apply Re; auto. tauto.
+    - (* fail *) apply Re; auto. destruct Hx as (L & D & E). unfold spec, cspec. rewrite L, D. assumption.
+    - (* store *) destruct Hx as (L & D & E). apply Re; [|auto].
       apply good_store; [assumption|]. unfold cspec. rewrite L. auto.
-    - apply Re; auto. split; [assumption|]. destruct Hx as (L & D & E). unfold spec. rewrite L, D. auto.
+    - (* unlock *) apply Re; auto. destruct Hx as (L & D & E). unfold spec, cspec. rewrite L, D. auto.
   Qed.
 
-  Lemma cinv_reach c0 ks s : (forall k d, In (k, d) ks -> consistent k d) -> sreach (cinit c0 ks) s -> cinv c0 s.
-  Proof. intros Co. induction 1; [apply cinv_init; assumption | eapply cinv_step; eassumption]. Qed.
+  Lemma cinv_reach c0 ks s : sreach (cinit c0 ks) s -> cinv c0 s.
+  Proof. induction 1; [apply cinv_init | eapply cinv_step; eassumption]. Qed.
 
   (* the list of calls (name, dependency answer) never changes *)
   Definition cin (x : call) : key * depans := (ckey x, cdep x).
@@ -254,21 +238,21 @@ Section FindType.
     destruct (cpc x) as [| |[?|]| | |?|?|[?|]]; auto.
   Qed.
 
-  Lemma stored_reach c0 ks s : (forall k d, In (k, d) ks -> consistent k d) ->
+  Lemma stored_reach c0 ks s :
     sreach (cinit c0 ks) s -> Forall (stored_ok (ccache s)) (calls s).
   Proof.
-    intros Co R. induction R as [|s s' R IH St].
+    intros R. induction R as [|s s' R IH St].
     - cbn. apply Forall_forall. intros x H. apply in_map_iff in H. destruct H as [k [<- _]]. exact I.
-    - pose proof (cinv_reach _ _ _ Co R) as [G F].
+    - pose proof (cinv_reach _ _ _ R) as [G F].
       destruct St as [l1 x l2 c n w x' c' n' w' CSt]. cbn in *.
       apply Forall_app in IH. destruct IH as [I1 I2]. inversion I2 as [|? ? Hx I3]; subst.
       apply Forall_app in F. destruct F as [F1 F2]. inversion F2 as [|? ? Ox F3]; subst.
       inversion CSt; subst; try (apply Forall_app; split; [assumption | constructor; [|assumption]]);
         unfold stored_ok in *; cbn [cpc ckey cdep] in *; auto.
-      + destruct (lookup k c'); auto.
       + destruct r; auto. discriminate.
+      + destruct (lookup k c'); auto.
       + (* store *)
-        destruct Ox as [_ (L & D & E)]. cbn [cpc ckey cdep] in *.
+        destruct Ox as (L & D & E). cbn [cpc ckey cdep] in *.
         assert (S : cspec c0 k = Some v) by (unfold cspec; rewrite L; auto).
         apply Forall_app. split; [|constructor].
         * rewrite Forall_forall in *. intros y Hy. apply (stored_mono c0); auto. apply I1; assumption.
@@ -279,7 +263,6 @@ Section FindType.
   (* THE refinement theorem *)
   Theorem findtype_linearizable :
     forall (c0 : cache) (ks : list (key * depans)) (s : cstate),
-      (forall k d, In (k, d) ks -> consistent k d) ->
       sreach (cinit c0 ks) s ->
       (* (1) every finished call returned what the sequential execution of the same calls returns *)
       (forall i x r, nth_error (calls s) i = Some x -> cpc x = Done r ->
@@ -291,16 +274,16 @@ Section FindType.
       (* (3) an answer of the importer is in the cache *)
       (forall x v, In x (calls s) -> cpc x = Done (Some v) -> cdep x = None -> lookup (ckey x) (ccache s) = Some v).
   Proof.
-    intros c0 ks s Co R. pose proof (cinv_reach _ _ _ Co R) as [G F]. repeat split; try apply G.
-    - intros i x r Hn Hd. rewrite run_seq_results by assumption.
+    intros c0 ks s R. pose proof (cinv_reach _ _ _ R) as [G F]. repeat split; try apply G.
+    - intros i x r Hn Hd. rewrite run_seq_results.
       pose proof (keys_reach _ _ _ R) as K.
       assert (Hk : nth_error ks i = Some (cin x)).
       { rewrite <- K. rewrite nth_error_map. rewrite Hn. reflexivity. }
       rewrite nth_error_map. rewrite Hk. cbn. f_equal.
       rewrite Forall_forall in F. apply nth_error_In in Hn. specialize (F _ Hn).
-      destruct F as [_ F]. rewrite Hd in F. congruence.
-    - intros x r Hin Hd. rewrite Forall_forall in F. destruct (F _ Hin) as [_ F']. rewrite Hd in F'. assumption.
-    - intros x v Hin Hd Hn. pose proof (stored_reach _ _ _ Co R) as S. rewrite Forall_forall in S.
+      unfold call_ok in F. rewrite Hd in F. congruence.
+    - intros x r Hin Hd. rewrite Forall_forall in F. pose proof (F _ Hin) as F'. unfold call_ok in F'. rewrite Hd in F'. assumption.
+    - intros x v Hin Hd Hn. pose proof (stored_reach _ _ _ R) as S. rewrite Forall_forall in S.
       specialize (S _ Hin). unfold stored_ok in S. rewrite Hd in S. auto.
   Qed.
 
@@ -345,7 +328,6 @@ Arguments find_seq {key val} key_eqb oracle c k d.
 Arguments run_seq {key val} key_eqb oracle c ks.
 Arguments cspec {key val} key_eqb oracle c0 k.
 Arguments spec {key val} key_eqb oracle c0 k d.
-Arguments consistent {key val} oracle k d.
 Arguments good {key val} key_eqb oracle c0 c.
 Arguments Start {val}.
 Arguments HoldR {val}.
@@ -393,18 +375,15 @@ Section Dep.
 
   Lemma lone_spec c0 op : lone c0 op = spec key_eqb oracle c0 (snd op) (dep (fst op) (snd op)).
   Proof.
-    unfold lone, find_seq, spec. destruct (lookup key_eqb (snd op) c0); [reflexivity|].
-    destruct (dep (fst op) (snd op)); [reflexivity|]. destruct (oracle (snd op)); reflexivity.
+    unfold lone, find_seq, spec, cspec. destruct (dep (fst op) (snd op)); [reflexivity|].
+    destruct (lookup key_eqb (snd op) c0); [reflexivity|]. destruct (oracle (snd op)); reflexivity.
   Qed.
 
   Theorem history_independent :
-    (forall p k, consistent oracle k (dep p k)) ->
     forall c0 ops, fst (run_dep c0 ops) = map (lone c0) ops.
   Proof.
-    intros Co c0 ops. unfold run_dep. rewrite (run_seq_results key val key_eqb key_eqb_spec oracle).
-    - rewrite map_map. apply map_ext. intros op. rewrite lone_spec. reflexivity.
-    - intros k d Hin. apply in_map_iff in Hin. destruct Hin as [[p k'] [E _]]. unfold as_call in E. cbn in E.
-      inversion E; subst. apply Co.
+    intros c0 ops. unfold run_dep. rewrite (run_seq_results key val key_eqb key_eqb_spec oracle).
+    rewrite map_map. apply map_ext. intros op. rewrite lone_spec. reflexivity.
   Qed.
 End Dep.
 
